@@ -130,6 +130,14 @@ class LoopSpec:
             from .env import int_term
             k = int_term(iterable.args[0])
             iterable = SymSeq(z3.If(k > 0, k, 0), lambda i: SV('int', i), tag='range')
+        lazy_cursor = False
+        if is_for and isinstance(iterable, Obj) and iterable.cls == 'Cursor' and isinstance(iterable.fields.get('rows'), SymSeq):
+            # iterating the cursor itself: rows are produced one at a time and the statement stays active
+            # (the connection keeps its read snapshot) until the loop is done
+            lazy_cursor = True
+            iterable = iterable.fields['rows']
+            st.ghost['open_cursors'] = st.ghost.get('open_cursors', 0) + 1
+            st.effect('CURSOR_OPEN', line=s.lineno)
         if is_for and type(iterable).__name__ == 'ZipV':
             # zip of symbolic sequences: position-wise tuples up to the shorter length
             parts = []
@@ -170,6 +178,9 @@ class LoopSpec:
             st.assume(n >= 0)
             self._lem(it, fr, n)
             st.assume(self.inv(it, fr, n))
+            if lazy_cursor:
+                st.ghost['open_cursors'] = st.ghost.get('open_cursors', 1) - 1
+                st.effect('CURSOR_DONE', line=s.lineno)
             it.exec_block(s.orelse, fr)
             return
         # while loop
